@@ -18,10 +18,15 @@ Two layers (see notes/C06.md):
   which solves its own equations, in the order of the coupling graph, solves the whole system, and a component
   executed once solves its equations only if it does not read its own outputs (`MDAChain.__requires_mda`);
   the settings of a composed MDA prevail on the ones given for its inner MDAs in whichever form.
-Helper lemmas live in `Lemmas/C06Loop.lean`, `Lemmas/C06Chain.lean` and `Analysis/C06.lean`.
+* theorems about compositions whose parts carry their OWN settings and about several MDA objects in one process
+  (`Lemmas/C06Seq.lean`): an `MDASequential` stops on ITS tolerance or after its last sub-MDA and the data it returns
+  pass the residual test at ITS tolerance; an operation on an MDA object touches that object only, and the inner MDAs
+  of an `MDAChain` / `MDAGSNewton` hold the tolerance and the budget of their composed MDA after any history.
+Helper lemmas live in `Lemmas/C06Loop.lean`, `Lemmas/C06Chain.lean`, `Lemmas/C06Seq.lean` and `Analysis/C06.lean`.
 -/
 import GemseoVerif.Lemmas.C06Loop
 import GemseoVerif.Lemmas.C06Chain
+import GemseoVerif.Lemmas.C06Seq
 import GemseoVerif.Analysis.C06
 import Mathlib.Analysis.SpecialFunctions.Pow.NNReal
 import Mathlib.Tactic.NormNum
@@ -32,12 +37,6 @@ open scoped NNReal
 namespace GV.C06
 
 /-! ### The model of the loop -/
-
-/-- The sweep an algorithm of the model performs at every iteration. -/
-def sweepOf (s : Sys) (c : Cfg) : Vec → Vec :=
-  match c.algo with
-  | .gaussSeidel => gsSweep s
-  | _ => jacobiSweep s
 
 /-- **Loop invariant (all algorithms, accelerations, relaxations, scalings, starts, previous executions).**
     If `execute` ends by the residual test, the returned data are `sweep y` for the last iterate `y`, and the
@@ -463,5 +462,114 @@ example :
     (innerSettings chain given).get? "max_mda_iter" = some 100 ∧
     (innerSettings chain given).get? "over_relaxation_factor" = some (9/10) := by
   decide +kernel
+
+/-! ### Compositions whose parts carry their own settings; several MDA objects in one process -/
+
+/-- **`MDASequential` stops on ITS tolerance.** Whatever the sub-MDAs are — any number of them, each with its own
+    algorithm, tolerance, `max_mda_iter`, scaling, acceleration and previous executions — the data the sequence
+    returns are the data of a run of one of them, and that run either has a normed residual below the tolerance of
+    the SEQUENCE (`seqBreaks outerTol`), or is the run of the LAST sub-MDA: a sub-MDA that merely reached a looser
+    tolerance of its own never ends the sequence. -/
+theorem sequence_stops_on_its_own_tolerance_or_last_stage (s : Sys) (outerTol : Rat) (fuel : Nat)
+    (stages : List (Cfg × MState)) (data : Vec) (hne : stages ≠ []) :
+    ∃ (pre : List (Run (Option ScalData))) (c : Cfg) (st : MState) (d : Vec), (c, st) ∈ stages ∧
+      seqExecute s outerTol fuel stages data []
+        = ((execute s c fuel st d).data, pre ++ [execute s c fuel st d]) ∧
+      (seqBreaks outerTol (execute s c fuel st d) = true ∨ stages.getLast? = some (c, st)) := by
+  obtain ⟨pre, c, st, d, hmem, heq, hor⟩ := seqExecute_spec s outerTol fuel stages data [] hne
+  exact ⟨pre, c, st, d, hmem, by simpa using heq, hor⟩
+
+/-- **The data returned by a sequence pass the residual test at the tolerance requested from the SEQUENCE**, when
+    its last sub-MDA is at least as accurate as the sequence and the last run performed ended by a residual test (its
+    own, or the one of the sequence): for the sub-MDA `c` that produced them, the returned data are `sweep y` with the
+    squared normed residual of `(y, sweep y)`, under the scaling of that sub-MDA, at most `outerTol²`. All sequences,
+    all settings of the earlier sub-MDAs (looser, tighter, budget-limited), all systems and starts. -/
+theorem sequence_meets_its_tolerance (s : Sys) (outerTol : Rat) (fuel : Nat)
+    (stages : List (Cfg × MState)) (data : Vec) (hne : stages ≠ [])
+    (hlast : ∀ c st, stages.getLast? = some (c, st) → c.tol * c.tol ≤ outerTol * outerTol)
+    (hcap : ∀ r ∈ (seqExecute s outerTol fuel stages data []).2, r.outcome ≠ .capped)
+    (hconv : ∀ r, (seqExecute s outerTol fuel stages data []).2.getLast? = some r →
+      r.outcome = .converged ∨ seqBreaks outerTol r = true) :
+    ∃ (c : Cfg) (st : MState) (y : Vec) (sd₀ : Option ScalData), (c, st) ∈ stages ∧
+      (seqExecute s outerTol fuel stages data []).1 = sweepOf s c y ∧
+      (normedSq c.scaling c.groups sd₀ (residOn c.res y (sweepOf s c y))).1 ≤ outerTol * outerTol := by
+  obtain ⟨pre, c, st, d, hmem, heq, hor⟩ := sequence_stops_on_its_own_tolerance_or_last_stage s outerTol fuel stages data hne
+  rw [heq] at hcap hconv ⊢
+  have hr_cap : (execute s c fuel st d).outcome ≠ .capped := hcap _ (by simp)
+  have hbreak : seqBreaks outerTol (execute s c fuel st d) = true →
+      ∃ (y : Vec) (sd₀ : Option ScalData), (execute s c fuel st d).data = sweepOf s c y ∧
+        (normedSq c.scaling c.groups sd₀ (residOn c.res y (sweepOf s c y))).1 ≤ outerTol * outerTol := by
+    intro hb
+    obtain ⟨nsq, hl, _, hlt⟩ := (seqBreaks_iff outerTol _).mp hb
+    rcases execute_last s c fuel st d hr_cap with h0 | ⟨y, sd₀, h', e1, e2⟩
+    · rw [h0] at hl; simp at hl
+    · rw [e2] at hl
+      simp only [List.getLast?_append, List.getLast?_singleton, Option.some_or, Option.some.injEq] at hl
+      exact ⟨y, sd₀, e1, by rw [hl]; exact le_of_lt hlt⟩
+  have hfinal : seqBreaks outerTol (execute s c fuel st d) = true ∨
+      ((execute s c fuel st d).outcome = .converged ∧ stages.getLast? = some (c, st)) := by
+    rcases hor with hb | hl
+    · exact Or.inl hb
+    · rcases hconv (execute s c fuel st d) (by simp) with hc | hb
+      · exact Or.inr ⟨hc, hl⟩
+      · exact Or.inl hb
+  rcases hfinal with hb | ⟨hc, hl⟩
+  · obtain ⟨y, sd₀, e1, e2⟩ := hbreak hb
+    exact ⟨c, st, y, sd₀, hmem, e1, e2⟩
+  · obtain ⟨y, sd₀, _, e1, e2, _⟩ := stop_implies_residual_small s c fuel st d hc
+    exact ⟨c, st, y, sd₀, hmem, e1, le_trans e2 (hlast c st hl)⟩
+
+/-- Non-vacuity (and the shape of the missed defect): on `y₀ = 2 + y₁/4`, `y₁ = 2 - y₀/8`, a Gauss–Seidel starter with
+    the loose tolerance `1/16` reaches ITS tolerance after 2 iterations (normed residual² `3185/16777216 < (1/16)²`, not
+    below `(1/1024)²`), so the Newton stage with tolerance `1/4096` IS executed and the sequence with tolerance `1/1024`
+    returns the exact solution `[80/33, 56/33]`; the hypotheses of `sequence_meets_its_tolerance` hold. -/
+example :
+    let sys : Sys := ⟨[⟨2, [0, 1/4]⟩, ⟨2, [-1/8, 0]⟩], [[0], [1]]⟩
+    let cg : Cfg := ⟨.gaussSeidel, [0, 1], [[0], [1]], [0, 1], 1/16, 60, .noScaling, 1, .none, false⟩
+    let cn : Cfg := ⟨.newton, [0, 1], [[0], [1]], [0, 1], 1/4096, 100, .noScaling, 1, .none, false⟩
+    let out := seqExecute sys (1/1024) 100 [(cg, {}), (cn, {})] [0, 0] []
+    out.1 = [80/33, 56/33] ∧ out.2.map (·.hist.length) = [2, 2] ∧ out.2.map (·.outcome) = [.converged, .converged] ∧
+    (out.2.map (seqBreaks (1/1024))) = [false, true] ∧ cn.tol * cn.tol ≤ (1/1024 : Rat) * (1/1024) := by
+  decide +kernel
+
+/-- **Several MDA objects in one process: the others do not interfere.** After any history of constructions and
+    assignments (on the objects themselves or on their inner MDAs), what object `a` is — its own settings and the
+    settings of its inner MDAs / stages — is what the operations naming `a` alone would have made it. -/
+theorem other_objects_do_not_interfere (w : World) (ops : List WOp) (a : Nat) :
+    wrun w ops a = wrun w (ops.filter (fun op => op.target == a)) a :=
+  wrun_filter a ops w
+
+/-- **The inner MDAs of a composed MDA hold ITS tolerance and iteration budget**, after any history, whatever is
+    built or assigned on the OTHER objects (any classes, any settings, assignments on their inner MDAs included) and
+    whatever settings were given for its inner MDAs, as long as nobody assigns the settings of its own inner MDAs
+    directly: for `MDAChain` and `MDAGSNewton` (the classes that cascade `tolerance` and `max_mda_iter`), every inner
+    MDA holds the value the composed MDA holds for both fields. -/
+theorem inner_mdas_hold_the_settings_of_their_composed_mda (ops : List WOp) (a : Nat)
+    (hops : ∀ op ∈ ops, op.target = a → op.isAssignSub = false) (o : Obj)
+    (ho : wrun (fun _ => none) ops a = some o) (hk : cascades o.kind = true) :
+    ∀ sub ∈ o.subs, ∀ f ∈ cascadedFields, ∀ v, o.own.get? f = some v → sub.get? f = some v :=
+  wrun_coherent a ops (fun _ => none) (fun _ h => by simp at h) hops o ho hk
+
+/-- Non-vacuity: an accurate `MDAChain` (object 0: tolerance `2⁻³⁰`, 100 iterations, two inner MDAs given a coarse
+    tolerance of their own), then a coarse `MDAGSNewton` (object 1) and a coarse `MDAChain` (object 2) are built and
+    assigned: the inner MDAs of object 0 still hold `2⁻³⁰` and `100`; object 1's stages follow ITS assignments. -/
+example :
+    let ops : List WOp := [
+      .create 0 .chain [("tolerance", 1/1073741824), ("max_mda_iter", 100)] [[("tolerance", 1/2)], []],
+      .create 1 .gsNewton [("tolerance", 1/4), ("max_mda_iter", 2)] [[], []],
+      .assignSub 1 0 "max_mda_iter" 1,
+      .create 2 .chain [("tolerance", 1/2), ("max_mda_iter", 1)] [[]],
+      .assign 1 "tolerance" (1/8),
+      .assign 2 "max_mda_iter" 3]
+    let w := wrun (fun _ => none) ops
+    (w 0).map (fun o => o.subs.map (fun s => (s.get? "tolerance", s.get? "max_mda_iter")))
+      = some [(some (1/1073741824), some 100), (some (1/1073741824), some 100)] ∧
+    (w 1).map (fun o => o.subs.map (fun s => (s.get? "tolerance", s.get? "max_mda_iter")))
+      = some [(some (1/8), some 2), (some (1/8), some 2)] ∧
+    (∀ op ∈ ops, op.target = 0 → op.isAssignSub = false) := by
+  refine ⟨by decide +kernel, by decide +kernel, ?_⟩
+  intro op hop ht
+  simp only [List.mem_cons, List.not_mem_nil, or_false] at hop
+  rcases hop with rfl | rfl | rfl | rfl | rfl | rfl <;> first | rfl | (simp [WOp.target] at ht)
 
 end GV.C06
